@@ -1281,6 +1281,10 @@ func c13TrackerAlways(c *Ctx) {
 // rangeVarsNotAssigned: no loop of the package assigns to its own range key /
 // value variable (a value that is re-used for the remaining inner iterations
 // — e.g. the subscription tag of the nodes that follow a bad link).
+var rangeVarWhy = map[string]string{
+	"component/routing/domain_matcher": "a pattern is compiled as the user wrote it — rewriting it (case folding, trimming) before the per-kind handling changes what a regex or keyword means (\\D becomes \\d)",
+}
+
 func rangeVarsNotAssigned(c *Ctx, rule, rel string, keepFile func(string) bool) {
 	loops, bad := 0, ""
 	for _, f := range c.P.FuncsIn(rel) {
@@ -1321,6 +1325,9 @@ func rangeVarsNotAssigned(c *Ctx, rule, rel string, keepFile func(string) bool) 
 	c.R.Checkf(rule, "range-variables-not-reassigned@"+rel, rel, bad == "" && loops > 0,
 		"none of the %d range loops of %s assigns to its own key/value variable%s", loops, rel, func() string {
 			if bad != "" {
+				if w, ok := rangeVarWhy[rel]; ok {
+					return " — VIOLATED: " + bad + ": " + w
+				}
 				return " — VIOLATED: " + bad + ": the changed value stays in force for the rest of that iteration's inner loops (the nodes after an unparsable link inherit the placeholder tag and change group membership under subtag filters)"
 			}
 			return ""
